@@ -210,6 +210,11 @@ func (ut UnitType) findByAlias(alias string) *Unit {
 // specified alias. It returns nil if the unit with such alias is not found.
 func (ut UnitType) sniffUnit(unit string) *Unit {
 	unit = strings.ToLower(unit)
+	// A spelling that is an alias as it stands ("μs", three bytes long and
+	// ending in 's') must not lose its last letter to the plural rule.
+	if u := ut.findByAlias(unit); u != nil {
+		return u
+	}
 	if len(unit) > 2 {
 		unit = strings.TrimSuffix(unit, "s")
 	}
